@@ -117,12 +117,23 @@ func (c *catalogClass_[K, V]) Extract(
 	catalog CatalogLike[K, V],
 	keys Sequential[K],
 ) CatalogLike[K, V] {
+	// Determine which keys the catalog contains, a zero value does not tell.
+	var present = map[K]bool{}
+	var associations = catalog.GetIterator()
+	for associations.HasNext() {
+		var association = associations.GetNext()
+		present[association.GetKey()] = true
+	}
+
+	// Extract the associations for the specified keys that are present.
 	var result = c.Make()
 	var iterator = keys.GetIterator()
 	for iterator.HasNext() {
 		var key = iterator.GetNext()
-		var value = catalog.GetValue(key)
-		result.SetValue(key, value)
+		if present[key] {
+			var value = catalog.GetValue(key)
+			result.SetValue(key, value)
+		}
 	}
 	return result
 }
